@@ -183,6 +183,7 @@ def run_scenario(sc, chooser, eager=('writer',), max_steps=6000, probe=True):
                 r.probe[item] = list(q.log[n0:])
         S.kill_all()
         r.crashes = [e for e in S.events if e[0] in ('thread-crash', 'job-error')]
+        r.lock_violations = list(env.lock_violations)
     r.S = S
     r.trace = S.trace
     r.events = S.events
@@ -327,6 +328,9 @@ def impl_summary(r, item):
 def prepare(r):
     """plain-data digest of a Run for the comparison with the model (picklable)"""
     per, problems = item_labels(r)
+    for v in getattr(r, 'lock_violations', [])[:3]:
+        problems.append('lock discipline: %s of %s by thread %s at step %d without the %s (the model attributes this access to a lock region)' % (
+            v['mode'], v['field'], v['thread'], v['step'], v['needs']))
     pb = puts_by_step(r)
     items = {}
     for item, labs in per.items():
